@@ -47,16 +47,27 @@ def item_cond(ctx, got, want, s, v, init_depth):
     if t == "divr":
         a, b = v[want[1]], v[want[2]]
         return z3.And(gv < b, gv <= a)
+    if t == "any":
+        return z3.BoolVal(True)  # characterised by the spec's `relation` over several items
     raise ValueError(want)
+
+
+LAZY_FEASIBILITY = {"ext2inv"}
 
 
 def check_instruction(meta, interp, name, root, V, cov):
     fn = ispec.all_instrs()[name]
+    # instructions whose branch conditions are products of symbolic field elements (extension-field
+    # arithmetic): fork without asking the solver, infeasible paths fall out at the per-path checks
+    lazy = name in LAZY_FEASIBILITY
+    interp.lazy_feasibility = lazy
     try:
         paths = masmsym.run_mast(interp, meta, root, overflow_items=K)
     except Unsupported as e:
         V.add(f"instr:{name}", "not-covered", detail=f"outside the interpreter's subset: {e}")
         return
+    finally:
+        interp.lazy_feasibility = False
     cov["paths"] += len(paths)
     n_ok = 0
     for pi, res in enumerate(paths):
@@ -97,6 +108,8 @@ def check_instruction(meta, interp, name, root, V, cov):
             else:
                 for i, (g, w) in enumerate(zip(final, want)):
                     posts.append((f"item {i}", item_cond(ctx, g, w, s, v, 16 + K)))
+            for label, cond in (sp["relation"](ctx, final, s) if "relation" in sp else []):
+                posts.append((label, cond))
             posts.append(("succeeds only outside the documented failing case", z3.Not(fail)))
         else:
             err = res.value[1]
